@@ -190,10 +190,15 @@ def run(ctx):
     nex = len(lines)
     # 2. growth thresholds: histories with many distinct words (model side is O(n^2): keep <= 3000 distinct)
     for target in ([5, 9, 17, 40, 100, 400, 1500] if ctx.quick else [5, 9, 17, 33, 65, 129, 400, 1000, 3000]):
-        ops = []
+        ops, allw = [], []
         for n in range(target):
             w = b"w%d" % n if n % 3 else bytes(rng.choice(b"abcdefgh") for _ in range(1 + n % 7)) + b"%d" % n
+            if n % 4 == 1:          # bytes >= 0x80 (UTF-8 identifiers, arbitrary bytes in string literals)
+                w = rng.choice([b"\xc3\xa9", b"\xe4\xb8\xad", b"caf\xc3\xa9", b"\xff", b"\xcf\x80r"]) + b"%d" % n
+            allw.append(w)
             ops.append("i" + hx(w))
+            if n + 1 in (5, 21, 100, 400, target):      # after each growth phase every spelling must still be found, as the same object
+                ops += ["f" + hx(x) for x in allw] + ["i" + hx(x) for x in allw[::3]]
             if n % 5 == 0:
                 ops.append("f" + hx(w))
                 ops.append("f" + hx(w + b"x"))
